@@ -382,7 +382,18 @@ pub fn gen_cmd_world(rng: &mut Rng, first_party_in_registry: bool) -> CmdWorld {
 /// mutate the remote state: peers add / revoke / change audits, new publisher data
 pub fn mutate_remote(rng: &mut Rng, w: &mut CmdWorld) -> String {
     let urls: Vec<String> = w.remote.peers.keys().cloned().collect();
-    match rng.below(5) {
+    match rng.below(6) {
+        5 if !urls.is_empty() => {
+            // the peer changes only the renew flag of a wildcard audit (the same audit)
+            let f = w.remote.peers.get_mut(rng.pick(&urls)).unwrap();
+            for l in f.wildcard_audits.values_mut() {
+                if let Some(a) = l.first_mut() {
+                    a.renew = Some(!a.renew.unwrap_or(true));
+                    return "peer flips the renew flag of a wildcard audit".into();
+                }
+            }
+            "no-op".into()
+        }
         4 => {
             // crates.io now says something else about an existing version: another user, an
             // unknown publisher, another day (crate deleted and re-registered, account removed)
@@ -989,6 +1000,28 @@ pub fn exec_history(r: &mut Report, rng: &mut Rng, idx: u64, mut w: CmdWorld, p:
                 corr_publishers(r, d, &p, &w, &format!("{}\nbefore step: {cmd_s}", trace.join("\n")));
             }
         }
+        // C12: which third-party packages the records on disk certify without exemptions
+        let c12_recorded: Option<Vec<String>> = if prop == "C12" && cmd.is_empty() {
+            p.acquire(true).ok().map(|s| s.clone_for_suggest(false)).and_then(|lockedv| {
+                let spec = core::Spec::new(&lockedv.audits.criteria)?;
+                let sg = core::SpecGraph::new(&p.md);
+                let demand = sg.demand(&lockedv.config.policy, &spec)?;
+                let mut out = Vec::new();
+                for q in 0..sg.ids.len() {
+                    if !sg.third_party(&lockedv.config.policy, q) {
+                        continue;
+                    }
+                    let edges = core::spec_edges(&lockedv, &spec, &sg.name[q])?;
+                    let no_ex = |e: &core::SpecEdge| e.kind != "exemption" && e.kind != "unpublished";
+                    if (0..spec.crits.len()).filter(|c| demand[q] & (1 << c) != 0).all(|c| core::spec_reach(&edges, c, &no_ex).contains(&Some(sg.ver[q].clone()))) {
+                        out.push(format!("{}:{}", sg.name[q], sg.ver[q]));
+                    }
+                }
+                Some(out)
+            })
+        } else {
+            None
+        };
         // C02: the conclusion the resolver reaches on the store as this very command will load it
         let concl_before: Option<bool> = if prop == "C02" && (cmd.is_empty() || cmd == ["--locked"]) {
             let md = p.md.clone();
@@ -1012,6 +1045,26 @@ pub fn exec_history(r: &mut Report, rng: &mut Rng, idx: u64, mut w: CmdWorld, p:
             nontrivial = true;
         }
         match prop.as_str() {
+            "C12" => {
+                // "always [reported fully audited] when the audits and grants already recorded in
+                // the store suffice": recomputed from the store as it was on disk (locked view)
+                if is_check && !locked && o == Outcome::Ok {
+                    if let Some(want) = c12_recorded.as_ref() {
+                        let (o2, text) = p.run(&["--output-format", "json"]);
+                        r.oracle_checked += 1;
+                        if o2 == Outcome::Ok {
+                            if let Ok(v) = serde_json::from_str::<serde_json::Value>(text.trim()) {
+                                let fully: Vec<String> = v["vetted_fully"].as_array().map(|a| a.iter().map(|x| format!("{}:{}", x["name"].as_str().unwrap_or(""), x["version"].as_str().unwrap_or(""))).collect()).unwrap_or_default();
+                                for pkg in want {
+                                    if !fully.contains(pkg) {
+                                        r.fail("oracle", "C12/cmd/not-fully-though-recorded-audits-suffice", format!("{pkg} is certified for everything required by audits and grants already recorded in the store, yet the check reports fully audited only {fully:?}"), &case);
+                                    }
+                                }
+                            }
+                        }
+                    }
+                }
+            }
             "C06" => {
                 // a passing unlocked run rests only on grants that what crates.io serves NOW
                 // justifies (exact version, that user, a day inside the window) — whatever an
